@@ -5,6 +5,7 @@ package zzverif
 import (
 	"encoding/json"
 	"fmt"
+	"net/url"
 	"sort"
 	"strconv"
 	"strings"
@@ -256,9 +257,9 @@ func (w *World) ExecOps(supis []string, ops []Op, snapFrom int, withGor bool) *H
 				se = h.Sess[len(h.Sess)-1]
 			}
 		case "update":
-			st.Resp = w.Do("POST", ccBase+"/chargingdata/"+ref+"/update", body, nil)
+			st.Resp = w.Do("POST", ccBase+"/chargingdata/"+url.PathEscape(ref)+"/update", body, nil)
 		case "release":
-			st.Resp = w.Do("POST", ccBase+"/chargingdata/"+ref+"/release", body, nil)
+			st.Resp = w.Do("POST", ccBase+"/chargingdata/"+url.PathEscape(ref)+"/release", body, nil)
 			if se != nil && st.Resp.Code/100 == 2 {
 				se.Live = false
 			}
@@ -272,7 +273,7 @@ func (w *World) ExecOps(supis []string, ops []Op, snapFrom int, withGor bool) *H
 					}
 				}
 			}
-			st.Resp = w.Do("PUT", ccBase+"/recharging/"+supi+"_"+strconv.Itoa(int(op.RG)), nil, nil)
+			st.Resp = w.Do("PUT", ccBase+"/recharging/"+url.PathEscape(supi+"_"+strconv.Itoa(int(op.RG))), nil, nil)
 		case "http":
 			st.Resp = w.Do(op.Method, op.Path, body, nil)
 		}
